@@ -353,7 +353,8 @@ def cmp_signature(line, out):
         return "yuv420-fastdct-halfscale"
     if len(f) >= 15:
         fam, script = int(f[13]), int(f[14])
-        return "compose-libjpeg:%s:fam%d:%s" % (clause[:50], fam, SCRIPT_NAME[script] if 0 <= script < len(SCRIPT_NAME) else script)
+        famk = "standard-factors" if fam <= 6 else ("nonstandard-444" if 9 <= fam <= 12 else "fam%d" % fam)
+        return "compose-libjpeg:%s:%s:%s" % (clause[:50], famk, SCRIPT_NAME[script] if 0 <= script < len(SCRIPT_NAME) else script)
     return "compose:" + clause[:60]
 
 
